@@ -8,6 +8,9 @@ import (
 	sdk "github.com/cosmos/cosmos-sdk/types"
 
 	assetkeeper "github.com/comdex-official/comdex/x/asset/keeper"
+	assettypes "github.com/comdex-official/comdex/x/asset/types"
+	marketkeeper "github.com/comdex-official/comdex/x/market/keeper"
+	markettypes "github.com/comdex-official/comdex/x/market/types"
 	"github.com/comdex-official/comdex/x/lend/types"
 	"github.com/comdex-official/comdex/zzvp"
 )
@@ -19,6 +22,20 @@ import (
 // collateral unchanged), published TotalBorrowed / TotalStableBorrowed move with the borrow position's principal.
 
 const vpVerifyLTV = vpLK + "VerifyCollateralizationRatio"
+
+// the signer is a user account, not the pool's module account (module accounts cannot sign)
+func vpNotAModule(bech string, module string) {
+	a, err := sdk.AccAddressFromBech32(bech)
+	zzvp.Assume(err == nil && !a.Equals(zzvp.ModuleAddr(module)))
+}
+
+// configuration invariant: the receipt token (cAsset) of an asset is a different denomination than the asset
+func vpReceiptTokenIsAnotherDenom(k Keeper, ak assetkeeper.Keeper, ctx sdk.Context, assetID uint64) {
+	a, _ := ak.GetAsset(ctx, assetID)
+	r, _ := k.GetAssetRatesParams(ctx, assetID)
+	c, _ := ak.GetAsset(ctx, r.CAssetID)
+	zzvp.Assume(a.Denom != c.Denom)
+}
 
 // Draw: succeeds only if the loan-to-value gate was asked about THIS borrow's collateral, its debt after the draw
 // (principal + accrued interest + new loan) and the pair's LTV (e-mode LTV for e-mode pairs) and agreed, and the pool
@@ -37,7 +54,10 @@ func VP_C08_Draw() {
 	rates, _ := k.GetAssetRatesParams(ctx, pair.AssetIn)
 	stats0, _ := k.GetAssetStatsByPoolIDAndAssetID(ctx, pair.AssetOutPoolID, pair.AssetOut)
 	zzvp.Assume(stats0.PoolID == pair.AssetOutPoolID && stats0.AssetID == pair.AssetOut) // stored under its own ids
+	// record coherence: the borrow's principal is denominated in the pair's out-asset (BorrowAsset builds it that way)
+	zzvp.Assume(b.AmountOut.Denom == assetOut.Denom)
 	poolBal := zzvp.Balance(ctx, zzvp.ModuleAddr(pool.ModuleName), assetOut.Denom)
+	vpNotAModule(msg.Borrower, pool.ModuleName)
 	zzvp.Mark()
 	_, err := NewMsgServerImpl(k).Draw(sdk.WrapSDKContext(ctx), &msg)
 	if err != nil {
@@ -80,6 +100,10 @@ func VP_C08_Repay() {
 	pair, _ := k.GetLendPair(ctx, b.PairID)
 	stats0, _ := k.GetAssetStatsByPoolIDAndAssetID(ctx, pair.AssetOutPoolID, pair.AssetOut)
 	zzvp.Assume(stats0.PoolID == pair.AssetOutPoolID && stats0.AssetID == pair.AssetOut)
+	// invariant of the accrual (IterateBorrow adds interest*reserveFactor to the tracker and interest to the borrow,
+	// reserve factor <= 1): the reserve's share of the accrued interest never exceeds the accrued interest
+	tr, _ := k.GetBorrowInterestTracker(ctx, msg.BorrowId)
+	zzvp.Assume(!tr.ReservePoolInterest.IsNegative() && tr.ReservePoolInterest.LTE(b.InterestAccumulated))
 	_, err := NewMsgServerImpl(k).Repay(sdk.WrapSDKContext(ctx), &msg)
 	if err != nil {
 		return
@@ -116,6 +140,8 @@ func VP_C08_Withdraw() {
 	pool, _ := k.GetPool(ctx, l.PoolID)
 	stats0, _ := k.GetAssetStatsByPoolIDAndAssetID(ctx, l.PoolID, l.AssetID)
 	zzvp.Assume(stats0.PoolID == l.PoolID && stats0.AssetID == l.AssetID)
+	vpNotAModule(msg.Lender, pool.ModuleName)
+	vpReceiptTokenIsAnotherDenom(k, ak, ctx, l.AssetID)
 	zzvp.Mark()
 	_, err := NewMsgServerImpl(k).Withdraw(sdk.WrapSDKContext(ctx), &msg)
 	if err != nil {
@@ -134,6 +160,8 @@ func VP_C08_Withdraw() {
 // Deposit into a lend position: position, published total and pool custody grow by the deposit.
 func VP_C08_Deposit() {
 	k, ctx := vpLendWorldWith()
+	var ak assetkeeper.Keeper
+	zzvp.Wire(&ak)
 	msg := types.MsgDeposit{Lender: zzvp.AnyString(), LendId: zzvp.AnyUint64(), Amount: vpAnyCoin()}
 	zzvp.Assume(msg.ValidateBasic() == nil)
 	l, _ := k.GetLend(ctx, msg.LendId)
@@ -141,6 +169,8 @@ func VP_C08_Deposit() {
 	pool, _ := k.GetPool(ctx, l.PoolID)
 	stats0, _ := k.GetAssetStatsByPoolIDAndAssetID(ctx, l.PoolID, l.AssetID)
 	zzvp.Assume(stats0.PoolID == l.PoolID && stats0.AssetID == l.AssetID)
+	vpNotAModule(msg.Lender, pool.ModuleName)
+	vpReceiptTokenIsAnotherDenom(k, ak, ctx, l.AssetID)
 	zzvp.Mark()
 	_, err := NewMsgServerImpl(k).Deposit(sdk.WrapSDKContext(ctx), &msg)
 	if err != nil {
@@ -153,4 +183,64 @@ func VP_C08_Deposit() {
 	zzvp.Assert(stats1.TotalLend.Sub(stats0.TotalLend).Equal(msg.Amount.Amount), "published-lent-moves-with-the-position")
 	zzvp.Assert(stats1.TotalBorrowed.Equal(stats0.TotalBorrowed) && stats1.TotalStableBorrowed.Equal(stats0.TotalStableBorrowed), "published-borrowed-untouched-by-a-deposit")
 	zzvp.Assert(zzvp.BalanceDelta(zzvp.ModuleAddr(pool.ModuleName), msg.Amount.Denom).Equal(msg.Amount.Amount), "pool-receives-exactly-the-deposit")
+}
+
+var vpLendDecimalPairs = [][2]int64{{1000000, 1000000}, {1000000, 100000000}, {100000000, 1000000}, {1, 1000000}, {1000000, 1},
+	{1000000, 1000000000000000000}, {1000000000000000000, 1000000}, {1000000000000000000, 1000000000000000000}}
+
+const vpLendQuickPairs = 5 // pairs involving 10^18: thorough tier (long non-linear queries)
+
+// C08 gate lemma (real arithmetic of VerifyCollateralizationRatio -> CalculateCollateralizationRatio -> market
+// CalcAssetPrice): the gate agrees only if both prices are present and active and the exact debt value does not exceed
+// the exact collateral value times the loan-to-value ratio, up to the three decimal roundings of the implementation.
+// Decimal scales from a grid; amounts (<= 10^24), prices (<= 10^13) and the ratio (<= 1) symbolic.
+func VP_C08_GateLemma() {
+	var k Keeper
+	zzvp.Wire(&k)
+	var mk marketkeeper.Keeper
+	zzvp.Wire(&mk)
+	var ak assetkeeper.Keeper
+	zzvp.Wire(&ak)
+	ctx := zzvp.EmptyCtx()
+	var ai, ao assettypes.Asset
+	zzvp.AnyOf(&ai)
+	zzvp.AnyOf(&ao)
+	var ti, to markettypes.TimeWeightedAverage
+	zzvp.AnyOf(&ti)
+	zzvp.AnyOf(&to)
+	zzvp.Assume(zzvp.And(ai.Id != ao.Id, ti.AssetID == ai.Id, to.AssetID == ao.Id))
+	np := vpLendQuickPairs
+	if zzvp.Thorough() {
+		np = len(vpLendDecimalPairs)
+	}
+	dp := vpLendDecimalPairs[zzvp.Choose(np)]
+	dI, dO := dp[0], dp[1]
+	ai.Decimals, ao.Decimals = sdk.NewInt(dI), sdk.NewInt(dO)
+	ltv := zzvp.AnyDec()
+	zzvp.Assume(zzvp.And(ti.Twa <= 10000000000000, to.Twa <= 10000000000000, !ltv.IsNegative(), ltv.LTE(sdk.OneDec())))
+	ak.SetAsset(ctx, ai)
+	ak.SetAsset(ctx, ao)
+	hasIn, hasOut := zzvp.AnyBool(), zzvp.AnyBool()
+	if hasIn {
+		mk.SetTwa(ctx, ti)
+	}
+	if hasOut {
+		mk.SetTwa(ctx, to)
+	}
+	in, out := zzvp.AnySdkInt(), zzvp.AnySdkInt()
+	lim, _ := sdk.NewIntFromString("1000000000000000000000000")
+	zzvp.Assume(zzvp.And(in.IsPositive(), out.IsPositive(), in.LTE(lim), out.LTE(lim)))
+	var err error
+	if zzvp.Try(func() { err = k.VerifyCollateralizationRatio(ctx, in, ai, out, ao, ltv) }) || err != nil {
+		return // refused (a panic aborts the transaction)
+	}
+	zzvp.Reach("gate-passed")
+	zzvp.Assert(zzvp.And(hasIn, ti.IsPriceActive, hasOut, to.IsPriceActive), "both-prices-present-and-active")
+	e18 := zzvp.Pow10(18)
+	X := zzvp.ZI(in).Mul(zzvp.ZU(ti.Twa)).Mul(zzvp.ZN(dO))
+	Y := zzvp.ZI(out).Mul(zzvp.ZU(to.Twa)).Mul(zzvp.ZN(dI))
+	dd := zzvp.ZN(dI).Mul(zzvp.ZN(dO))
+	L := zzvp.ZD(ltv)
+	// (Y/dd - u) <= (L/1e18 + u) * (X/dd + u), u = 1e-18, cleared of denominators
+	zzvp.Assert(L.Add(zzvp.ZN(1)).Mul(X.Mul(e18).Add(dd)).GTE(Y.Mul(e18).Sub(dd).Mul(e18)), "debt-value<=collateral-value*ltv+rounding")
 }
